@@ -243,15 +243,11 @@ def run(prog, ctx):
         # the new point is the mirror image 2 * p - existing child
         arg = x.args[0] if x.args else None
         pt = None
-        if isinstance(arg, ast.Name):
-            b = R.reaching_unique_def(ft, arg.id, arg)
-            if b is not None and b.kind == "assign" and isinstance(b.value, ast.Call) and b.value.args:
-                pa = b.value.args[0]
-                if isinstance(pa, ast.Name):
-                    b2 = R.reaching_unique_def(ft, pa.id, pa)
-                    pt = tmf.term(b2.value) if b2 is not None and b2.kind == "assign" else None
-                else:
-                    pt = tmf.term(pa)
+        if arg is not None:
+            # look through temporaries: the argument is Node(<point>) after copy propagation of single-definition locals
+            ta = R.resolve_locals(ft, tmf.term(arg), R.cfg_node(ft, x), tmf)
+            if ta[0] == "call" and len(ta[2]) >= 1:
+                pt = ta[2][0]
         okp = False
         if pt is not None:
             p_atom = Poly.atom(("a", node_t, "point"))
